@@ -801,6 +801,64 @@ def runUnpack (std : Stdlib) (c : Json) : R (Json × Option Json × Option Strin
     pure (model, oracle, none)
   | r => pure (Json.mkObj [("create", errKindJson r)], none, none)
 
+/-- a Go value of type `ty` as the input NewFrom receives (struct source with tags) -/
+partial def toGoData (std : Stdlib) : Ty → GoVal → GoData
+  | _, .scalar (.bool b) => .bool b
+  | _, .scalar (.int i) => .int i
+  | _, .scalar (.uint n) => .uint n
+  | _, .scalar (.float f) => .float f
+  | _, .scalar (.str s) => .str s
+  | _, .scalar (.dur ns) => .dur (std.durString ns)
+  | _, .regex p => .regex p
+  | _, .iface none => .nil
+  | _, .iface (some d) => dataToGo d
+  | _, .ptr none => .nil
+  | .ptr t, .ptr (some v) => toGoData std t v
+  | _, .slice none => .list []
+  | .slice t, .slice (some l) => .list (l.map (toGoData std t))
+  | .array _ t, .array l => .list (l.map (toGoData std t))
+  | _, .map none => .map []
+  | .map t, .map (some m) => .map (m.map (fun (k, v) => (k, toGoData std t v)))
+  | .strct fs, .strct xs => .strct ((fs.zip xs).map (fun ((g, tag, _, t), x) => (g, tag, toGoData std t x)))
+  | _, .cfg (some v) => .cfg v
+  | _, _ => .nil
+
+/-- equality of Go values with nil and empty collections considered equal -/
+partial def goValEquiv : GoVal → GoVal → Bool
+  | .slice a, .slice b =>
+    let la := a.getD []; let lb := b.getD []
+    la.length == lb.length && (la.zip lb).all (fun (x, y) => goValEquiv x y)
+  | .map a, .map b =>
+    let ma := a.getD []; let mb := b.getD []
+    ma.length == mb.length && ma.all (fun (k, x) => match mb.find? (·.1 == k) with | some (_, y) => goValEquiv x y | none => false)
+  | .array a, .array b => a.length == b.length && (a.zip b).all (fun (x, y) => goValEquiv x y)
+  | .strct a, .strct b => a.length == b.length && (a.zip b).all (fun (x, y) => goValEquiv x y)
+  | .ptr (some a), .ptr (some b) => goValEquiv a b
+  | a, b => (goValJson a).compress == (goValJson b).compress
+
+/-- C06 "roundtrip": NewFrom(value of a struct type) then Unpack into a zero value of the same type -/
+def runRoundtrip (std : Stdlib) (c : Json) : R (Json × Option Json × Option String) := do
+  let ty ← parseTy (← c.getObjVal? "ty")
+  let v ← parseGoVal (← c.getObjVal? "val")
+  let o ← getOpts c "opts"
+  let src := toGoData std ty v
+  let r := newFrom o src >>= fun cfg => unpack std o ty (zeroOf ty) cfg
+  let model := match r with
+    | .ok w => Json.mkObj [("ok", goValJson w)]
+    | .err e => Json.mkObj [("err", Json.mkObj [("reason", .str e.reason.name)])]
+    | .panic s => Json.mkObj [("panic", .str s)]
+    | .fuel => Json.mkObj [("fuel", .bool true)]
+  let oracle : Option Json ← match optField c "impl" with
+    | none => pure none
+    | some impl =>
+      match optField impl "ok" with
+      | some okv => do
+        let got ← parseGoVal okv
+        if goValEquiv got v then pure (some okOracle)
+        else pure (some (failOracle "the struct did not survive struct -> Config -> struct unchanged"))
+      | none => pure (some (failOracle "struct -> Config -> struct failed"))
+  pure (model, oracle, none)
+
 def runFull (std : Stdlib) (c : Json) : R (Json × Option Json × Option String) := do
   let k ← strField c "k"
   match k with
@@ -813,6 +871,7 @@ def runFull (std : Stdlib) (c : Json) : R (Json × Option Json × Option String)
   | "flags" => runFlags std c
   | "eval" => runEval std c
   | "unpack" => runUnpack std c
+  | "roundtrip" => runRoundtrip std c
   | _ => do pure ((← runCase std c), none, none)
 
 partial def loop (std : Stdlib) (h : IO.FS.Stream) (out : IO.FS.Stream) : IO Unit := do
